@@ -260,22 +260,25 @@ func c05SwapRRFactoryRand(r *rand.Rand) func() {
 // the rebuild reproduces exactly that order. c05RebuildMatchesConstructor
 // checks that the rebuilt scheduler equals, for one of the possible draws, the
 // scheduler the constructor built.
-func c05Script(lb types.LoadBalancer, info types.ClusterInfo, hs types.HostSet, r *rand.Rand) error {
+func c05Script(lb types.LoadBalancer, info types.ClusterInfo, r *rand.Rand) error {
+	// the scheduler is rebuilt over the balancer's OWN host set (the one its
+	// constructor was given), never over a set named by the harness: a balancer
+	// published with the wrong set must stay wrong.
 	switch l := lb.(type) {
 	case *randomLoadBalancer:
 		l.rand = r
 	case *roundRobinLoadBalancer, *maglevLoadBalancer, *reqRoundRobinLoadBalancer:
 		// no random source of their own
 	case *WRRLoadBalancer:
-		c05RebuildEdf(l.EdfLoadBalancer, info, hs, r)
+		c05RebuildEdf(l.EdfLoadBalancer, info, r)
 	case *leastActiveRequestLoadBalancer:
-		c05RebuildEdf(l.EdfLoadBalancer, info, hs, r)
+		c05RebuildEdf(l.EdfLoadBalancer, info, r)
 	case *leastActiveConnectionLoadBalancer:
-		c05RebuildEdf(l.EdfLoadBalancer, info, hs, r)
+		c05RebuildEdf(l.EdfLoadBalancer, info, r)
 	case *peakEwmaLoadBalancer:
 		c, a, ce, se, d := l.choice, l.activeRequestBias, l.clientErrorBias, l.serverErrorBias, l.defaultDuration
 		l.choice, l.activeRequestBias, l.clientErrorBias, l.serverErrorBias, l.defaultDuration = 0, 0, 0, 0, 0
-		c05RebuildEdf(l.EdfLoadBalancer, info, hs, r)
+		c05RebuildEdf(l.EdfLoadBalancer, info, r)
 		l.choice, l.activeRequestBias, l.clientErrorBias, l.serverErrorBias, l.defaultDuration = c, a, ce, se, d
 	default:
 		return fmt.Errorf("unknown load balancer implementation %T", lb)
@@ -283,10 +286,28 @@ func c05Script(lb types.LoadBalancer, info types.ClusterInfo, hs types.HostSet, 
 	return nil
 }
 
-func c05RebuildEdf(e *EdfLoadBalancer, info types.ClusterInfo, hs types.HostSet, r *rand.Rand) {
+func c05RebuildEdf(e *EdfLoadBalancer, info types.ClusterInfo, r *rand.Rand) {
 	e.rand = r
 	e.scheduler = nil
-	e.refresh(info, hs)
+	e.refresh(info, e.hosts)
+}
+
+// c05LbHosts is the host set the balancer itself selects from.
+func c05LbHosts(lb types.LoadBalancer) types.HostSet {
+	switch l := lb.(type) {
+	case *randomLoadBalancer:
+		return l.hosts
+	case *roundRobinLoadBalancer:
+		return l.hosts
+	case *maglevLoadBalancer:
+		return l.hosts
+	case *reqRoundRobinLoadBalancer:
+		return l.hosts
+	}
+	if e := c05Edf(lb); e != nil {
+		return e.hosts
+	}
+	return nil
 }
 
 func c05Edf(lb types.LoadBalancer) *EdfLoadBalancer {
@@ -321,7 +342,7 @@ func c05RebuildMatchesConstructor(info types.ClusterInfo, hs types.HostSet) stri
 	for a := 0; a < 4; a++ {
 		src := &c05Src{script: []int{a << 1}}
 		lb2 := NewLoadBalancer(info, hs)
-		if err := c05Script(lb2, info, hs, rand.New(src)); err != nil {
+		if err := c05Script(lb2, info, rand.New(src)); err != nil {
 			return err.Error()
 		}
 		if src.pos != 1 {
